@@ -418,11 +418,11 @@ PROPS["C04"] = {
             "variadic one, 2 methods of an interface variable incl. a variadic one), a well-formed stub configuration (optional default, then 0..5 clauses: When with per-argument plain value / Any / arg.In, or "
             "In with 1..3 alternative tuples, for variadics also of different lengths, half of the later tuples derived from their predecessor by changing one position) over small overlapping value pools (incl. values that print alike and differ: nil / empty, [\"a b\"] / [\"a\" \"b\"]), and 1..20 hit-biased calls. "
             "Oracle: a reference interpreter (first registered clause all of whose expressions match, counts must agree for variadic tails, else "
-            "default, else panic with the 'no suitable condition' message); for plain functions When.Eval must agree with the call. Non-trivial: a "
+            "default, else panic with the 'no suitable condition' message); for plain functions When.Eval must agree with the call. In half of the cases the caller refills every list it passed to When / In / Return / Returns / AndReturn (rows and tuples included) once the configuration is made: the stubs keep what they were given. Non-trivial: a "
             "call decided by a clause other than the first, by the default while clauses exist, or by the no-condition panic; distinct by "
             "(target, number of clauses, default, decision sequence).",
     "assumptions": ["condition values come from the domain where equality is unambiguous (ints, strings, bools, ordinary floats, comparable structs, pointers by pointee, slices by content, interface{} holding ints/strings)"],
-    "floors": [("configurations", "decided/later-clause", 500), ("configurations", "decided/panic-no-condition", 100), ("configurations", "variadic/1-fixed", 100),
+    "floors": [("configurations", "decided/later-clause", 500), ("configurations", "caller-refilled-its-lists-after-configuring", 1000), ("configurations", "decided/panic-no-condition", 100), ("configurations", "variadic/1-fixed", 100),
                ("configurations", "variadic/3-fixed", 100), ("configurations", "method", 300), ("configurations", "clause/in", 200), ("configurations", "interface-method", 200)],
 }
 
@@ -444,7 +444,7 @@ PROPS["C05"] = {
             "Non-trivial (sequential): >=2 stubs with >=2 elements and a call beyond a tail; (concurrent) every round; distinct by configuration and "
             "decision sequence / by (length, goroutines, calls, yield).",
     "assumptions": ["the concurrent half is a seeded stress search: the harness does not own the scheduler"],
-    "floors": [("sequential", "sequence/beyond-tail", 500), ("sequential", "sequence/with-repeated-neighbours", 300), ("sequential", "sequence/returns-then-andreturn", 300), ("concurrent", "rounds-running-past-the-tail", 50)],
+    "floors": [("sequential", "sequence/beyond-tail", 500), ("sequential", "caller-refilled-its-lists-after-configuring", 300), ("sequential", "sequence/with-repeated-neighbours", 300), ("sequential", "sequence/returns-then-andreturn", 300), ("concurrent", "rounds-running-past-the-tail", 50)],
 }
 
 PROPS["C09"] = {
